@@ -14,7 +14,7 @@ import (
 
 func init() {
 	mc.Register(&mc.Check{ID: "C06", Category: "exploration",
-		Rule:   "one honest world per shape with staggered, pairwise distinct validity instants (month k after / before the reference instant); only Options.Now varies: each of the five TimeSet fields in {safe} u {E-1s, E, E+1s for each of the expiry instants} u {nb-1s, nb for each notBefore}; all assignments with <=2 fields off safe (quick; <=3 thorough) at each checking level. Shape 1 (Intel-like: one root certificate shared by all chains, PCK-CRL issuer chain = the quote's CA certificates) is judged in both directions; shape 2 (every chain carries its own re-issued copy of root / CA with its own validity: 13 distinct expiry instants) only 'accept => in date'. Non-trivial: >=1 field off safe; distinct by (shape, level, assignment)",
+		Rule:   "one honest world per shape with staggered, pairwise distinct validity instants (month k after / before the reference instant); only Options.Now varies: each of the five TimeSet fields in {safe} u {E-1s, E, E+1s for each of the expiry instants} u {nb-1s, nb for each notBefore}; all assignments with <=2 fields off safe (quick; <=3 thorough) at each checking level. Shape 1 (Intel-like: one root certificate shared by all chains, PCK-CRL issuer chain = the quote's CA certificates) is judged in both directions; shape 2 (every chain carries its own re-issued copy of root / CA with its own validity: 13 distinct expiry instants) only 'accept => in date'. Plus every fixed-length sequence of {point Now at a new time set, overwrite the pointed-to time set, copy the options by value, verify at L0/L1/L2} on ONE shared options value. Non-trivial: >=1 field off safe; distinct by (shape, level, assignment) / sequence",
 		Assume: append([]string{"zero time.Time values are outside the alphabet (x509 treats them as 'now')", "CRL thisUpdate is not part of the statement"}, cryptoAssume...),
 		Run:    runC06})
 }
